@@ -51,6 +51,9 @@ class ClassTable:
                 ci = ClassInfo(cname, m, cnode)
                 for item in cnode.body:
                     if isinstance(item, ast.FunctionDef):
+                        decos_ = [ast.unparse(d) for d in item.decorator_list]
+                        if any(d.endswith((".setter", ".deleter")) for d in decos_) and item.name in ci.methods:
+                            continue  # the property's getter stays the definition looked up by name
                         ci.methods[item.name] = item  # last definition wins, as in Python
                     elif isinstance(item, ast.Assign) and len(item.targets) == 1:
                         t = item.targets[0]
